@@ -390,6 +390,8 @@ type SpecFunc struct {
 	Opaque    bool
 	File      string
 	Pkg       string
+	depsDone  bool
+	deps      []heapDep
 }
 
 type Hint struct {
